@@ -339,6 +339,32 @@ Theorem C03_nesting_composes : forall pol f r1 r2 rest c bt row1 x more y more2,
 Proof. exact DesugarFacts.ds_nested_loops. Qed.
 Print Assumptions C03_nesting_composes.
 
+(* "with the loop (and optional index) variable SUBSTITUTED": desugaring the body in the context extended
+   with x := e (and i := n) is desugaring, in the context the loop was reached with, the body in which
+   {{x}} and {{i}} have been replaced textually (in row ids, texts, include_if and loop lists; the index
+   variable first: it is bound last) — when no loop inside the body binds one of the two names again
+   (when one does, the extended context IS the definition: the inner binding shadows, and only inside) *)
+Theorem C03_loop_variable_substituted : forall pol f rest c x idx e n bt omit b rem,
+  Forall (Desugar.no_rebind x) rest -> (forall i, idx = Some i -> Forall (Desugar.no_rebind i) rest) ->
+  Desugar.ds pol f rest (Blocks.bind_loop c x idx e n) bt omit = Blocks.ROk (b, rem) ->
+  Desugar.ds pol f (Desugar.subst_loop x idx e n rest) c bt omit = Blocks.ROk (b, Desugar.subst_loop x idx e n rem).
+Proof. exact DesugarFacts.ds_body_substituted. Qed.
+Print Assumptions C03_loop_variable_substituted.
+
+Example C03_loop_variable_substituted_nonvacuous :
+  Forall (Desugar.no_rebind DesugarWitness.n_cx) (skipn 3 DesugarWitness.ex_rows)
+  /\ Forall (Desugar.no_rebind DesugarWitness.n_x) (skipn 3 DesugarWitness.ex_rows)
+  /\ Desugar.ds Strict 40 (skipn 3 DesugarWitness.ex_rows) DesugarWitness.ex_c00 Blocks.BFor false
+     = Blocks.ROk (DesugarWitness.ex_b00, skipn 5 DesugarWitness.ex_rows)
+  /\ Desugar.ds Strict 40 (Desugar.subst_loop DesugarWitness.n_cx (Some DesugarWitness.n_x) DesugarWitness.n_p 0 (skipn 3 DesugarWitness.ex_rows))
+        DesugarWitness.ex_c0 Blocks.BFor false
+     = Blocks.ROk (DesugarWitness.ex_b00,
+                   Desugar.subst_loop DesugarWitness.n_cx (Some DesugarWitness.n_x) DesugarWitness.n_p 0 (skipn 5 DesugarWitness.ex_rows))
+  /\ nth 0 (Desugar.subst_loop DesugarWitness.n_cx (Some DesugarWitness.n_x) DesugarWitness.n_p 0 (skipn 3 DesugarWitness.ex_rows)) Desugar.end_row
+     = DesugarWitness.ex_row3_substituted.
+Proof. exact DesugarWitness.body_substituted_nonvacuous. Qed.
+Print Assumptions C03_loop_variable_substituted_nonvacuous.
+
 (* ... and nothing is left to unroll at any depth: a desugared sheet desugars to itself, in any context *)
 Theorem C03_desugared_sheet_is_a_fixed_point : forall pol rows c rows' c',
   Desugar.desugar pol c rows = Blocks.ROk rows' -> Desugar.desugar pol c' rows' = Blocks.ROk rows'.
